@@ -95,7 +95,7 @@ func (c *Config) calculateCacheKey() string {
 	digest.Write(stringx.ToBytes(c.ClientID))
 	digest.Write(stringx.ToBytes(c.ClientSecret))
 	digest.Write(stringx.ToBytes(c.TokenURL))
-	digest.Write(stringx.ToBytes(strings.Join(c.Scopes, "")))
+	digest.Write(stringx.ToBytes(strings.Join(c.Scopes, " ")))
 
 	return hex.EncodeToString(digest.Sum(nil))
 }
@@ -237,7 +237,7 @@ func (c *Config) Hash() []byte {
 	digest.Write(stringx.ToBytes(c.ClientID))
 	digest.Write(stringx.ToBytes(c.ClientSecret))
 	digest.Write(stringx.ToBytes(c.TokenURL))
-	digest.Write(stringx.ToBytes(strings.Join(c.Scopes, "")))
+	digest.Write(stringx.ToBytes(strings.Join(c.Scopes, " ")))
 
 	return digest.Sum(nil)
 }
